@@ -278,9 +278,12 @@ func genDyn(e *env, rng *gen.Rng) {
 		if rng.Chance(1, 12) {
 			H = 0
 		}
+		// viewport widths 0..7 (the cursor gutter takes 2 columns; widths below 2 included)
+		W := gen.Pick(rng, []int{0, 1, 2, 3, 4, 4, 7})
+		r.Count(fmt.Sprintf("dl-replace-width%d", W))
 		ops := []string{fmt.Sprintf("dl new %d %d %s", gap, rng.Intn(2), hsStr(hs))}
 		if len(hs) > 0 {
-			ops = append(ops, fmt.Sprintf("dl setcursor %d", rng.Range(0, len(hs)-1)), fmt.Sprintf("dl draw 4 %d", H))
+			ops = append(ops, fmt.Sprintf("dl setcursor %d", rng.Range(0, len(hs)-1)), fmt.Sprintf("dl draw %d %d", W, H))
 		}
 		for k := rng.Range(2, 7); k > 0; k-- {
 			switch rng.Intn(6) {
@@ -297,20 +300,20 @@ func genDyn(e *env, rng *gen.Rng) {
 				ops = append(ops, "dl wheelup")
 			}
 			if rng.Chance(2, 3) {
-				ops = append(ops, fmt.Sprintf("dl draw 4 %d", H))
+				ops = append(ops, fmt.Sprintf("dl draw %d %d", W, H))
 			}
 			switch rng.Intn(4) {
 			case 0:
-				ops = append(ops, "dl next", fmt.Sprintf("dl draw 4 %d", H))
+				ops = append(ops, "dl next", fmt.Sprintf("dl draw %d %d", W, H))
 			case 1:
-				ops = append(ops, "dl prev", fmt.Sprintf("dl draw 4 %d", H))
+				ops = append(ops, "dl prev", fmt.Sprintf("dl draw %d %d", W, H))
 			case 2:
 				if len(hs) > 0 {
-					ops = append(ops, fmt.Sprintf("dl setcursor %d", rng.Range(0, len(hs)-1)), fmt.Sprintf("dl draw 4 %d", H))
+					ops = append(ops, fmt.Sprintf("dl setcursor %d", rng.Range(0, len(hs)-1)), fmt.Sprintf("dl draw %d %d", W, H))
 				}
 			}
 		}
-		ops = append(ops, fmt.Sprintf("dl draw 4 %d", H))
+		ops = append(ops, fmt.Sprintf("dl draw %d %d", W, H))
 		run(ops)
 		r.Count("dl-replace")
 		r.Count(fmt.Sprintf("dl-replace-gap%d", gap))
